@@ -84,6 +84,10 @@ Emit(s, e) == [s EXCEPT !.tel = Append(@, e)]
 State0(files, lf) ==
     [ extFiles |-> files, launchFail |-> lf,
       timeoutMs |-> 0, strictTimer |-> TRUE,   \* scenario parameters (trace validation)
+      caching |-> FALSE,               \* snapshot (init-caching) mode: restore routes and credentials endpoint exist
+      credVal |-> "none",              \* credentials served for the per-instance token: "none" | "init" | restore label
+      pcT |-> [pc |-> "off", err |-> "", dl |-> 0],     \* handleRestore
+      restoreErrType |-> "",
       gen |-> 0,                       \* runtimeDomainGeneration
       hm |-> "free",                   \* handlerExecutionMutex owner
       pcI |-> [pc |-> "off", ctx |-> "init", err |-> ""],   \* doRuntimeDomainInit
@@ -141,7 +145,7 @@ StartInitEn(s) == s.srv.initOut = "unset"
 StartInitDo(s) == [s EXCEPT !.srv.initOut = "pending", !.srv.phase = "init", !.pcI.pc = "spawned"]
 
 InitLockEn(s) == s.pcI.pc = "spawned" /\ s.hm = "free"
-InitLockDo(s) == InitBegin([s EXCEPT !.hm = "init"], "init")
+InitLockDo(s) == InitBegin([s EXCEPT !.hm = "init", !.credVal = IF s.caching THEN "init" ELSE "none"], "init")
 
 \* d2: create the agent object of the next external extension (registration of that name is possible from
 \* now on) ...
@@ -474,6 +478,41 @@ DriverShutdownRetEn(s) == s.drv = "shutw" /\ s.pcS.pc = "done" /\ s.pcS.by = <<"
 DriverShutdownRetDo(s) == [s EXCEPT !.hm = "free", !.drv = "idle", !.srv.phase = "idle", !.pcS = PcSOff]
 
 ----------------------------------------------------------------------------
+(* handleRestore (snapshot mode): update credentials, restore renderer,    *)
+(* release the runtime if it is parked in its restore poll, wait for its   *)
+(* next poll with the hook deadline; the first fatal error overrides       *)
+
+SanitisedType(et) == et     \* the harness projection applies the error-type grammar of C20
+
+RestoreBeginEn(s) == s.pcT.pc = "off"
+RestoreBeginDo(s, label, dl) ==
+    IF s.credVal = "none"
+    THEN [s EXCEPT !.pcT = [pc |-> "done", err |-> "errRestoreUpdateCredentials", dl |-> dl]]     \* no credentials to update
+    ELSE LET s1 == [s EXCEPT !.credVal = label, !.renderer = "restore"] IN
+         IF s.rt # "RestoreReady"
+         THEN Emit([s1 EXCEPT !.pcT = [pc |-> "done", err |-> "", dl |-> dl]], TelEv("RestoreRuntimeDone", "", "success", "", 0))
+         ELSE [s1 EXCEPT !.rtFlag = TRUE, !.pcT = [pc |-> "wait", err |-> "", dl |-> dl]]
+
+RestoreFinish(s, e0) ==
+    LET e == IF s.firstFatal # "none" THEN s.firstFatal ELSE e0
+        et == IF s.firstFatal # "none" THEN s.firstFatal ELSE "Runtime.Unknown"
+    IN Emit([s EXCEPT !.pcT.pc = "done", !.pcT.err = e],
+            IF e = "" THEN TelEv("RestoreRuntimeDone", "", "success", "", 0) ELSE TelEv("RestoreRuntimeDone", "", "error", et, 0))
+
+\* the runtime polled for its next event (or the flow was cancelled)
+RestoreAwaitEn(s) == s.pcT.pc = "wait" /\ GCond(s.ig.rtReady)
+RestoreAwaitDo(s) ==
+    LET o == GOutcome(s.ig.rtReady) IN
+    RestoreFinish(s, IF o = "ok" THEN "" ELSE IF o = "usererr" THEN "usererr:" \o s.restoreErrType ELSE o)
+
+\* the hook deadline passed: cancel the init flow
+RestoreTimeoutEn(s) == s.pcT.pc = "wait"
+RestoreTimeoutDo(s) == RestoreFinish(CancelAllInit(s, "Runtime.RestoreHookUserTimeout"), "Runtime.RestoreHookUserTimeout")
+
+RestoreReturnEn(s) == s.pcT.pc = "done"
+RestoreReturnDo(s) == [s EXCEPT !.pcT = [pc |-> "off", err |-> "", dl |-> 0]]
+
+----------------------------------------------------------------------------
 (* shutdown(): TERM/KILL/SHUTDOWN choreography (shutdown.go)               *)
 
 ProcAlive(s, p) == p \in DOMAIN s.procs /\ s.procs[p].st = "running"
@@ -671,7 +710,7 @@ RtInitErrorEffect(s, c) ==
     LET call == s.calls[c] IN
     IF s.rt = "none" THEN Answer(s, c, Res(0, ""))
     ELSE IF s.rt = "Restoring"
-    THEN Answer([CancelAllInit(s, "restoreerror") EXCEPT !.rt = "RestoreError"], c, [NoRes EXCEPT !.status = 202])
+    THEN Answer([CancelAllInit(s, "usererr") EXCEPT !.rt = "RestoreError", !.restoreErrType = call.et], c, [NoRes EXCEPT !.status = 202])
     ELSE IF s.rt # "Started" THEN Forbidden(s, c)
     ELSE LET s1 == [s EXCEPT !.rt = "InitError"] IN
          IF s.srv.phase = "invoking"
@@ -746,6 +785,34 @@ ExtErrorEffect(s, c) ==
        ELSE IF s.ag[a].st = target THEN Answer([s EXCEPT !.firstFatal = FF(@, fatal)], c, okRes)
        ELSE Answer(s, c, Res(403, "Extension.InvalidExtensionState"))
 
+\* GET /runtime/restore/next (snapshot mode only)
+RtRestoreAfterWake(s, c) ==
+    IF s.rt \in {"RestoreReady", "Restoring"} THEN Answer([s EXCEPT !.rt = "Restoring"], c, RenderRt(s))
+    ELSE Forbidden(s, c)
+RtRestoreNextEffect(s, c) ==
+    IF ~s.caching THEN Answer(s, c, Res(404, ""))
+    ELSE IF s.rt = "none" THEN Answer(s, c, Res(0, ""))
+    ELSE IF s.rt # "Started" THEN Forbidden(s, c)
+    ELSE LET w == GWalk(s.ig.rtRestore)
+             s1 == [s EXCEPT !.rt = "RestoreReady", !.ig.rtRestore = w[1]]
+         IN IF w[2] # "ok" THEN Forbidden(s1, c)
+            ELSE IF s1.rtFlag THEN RtRestoreAfterWake([s1 EXCEPT !.rtFlag = FALSE], c)
+            ELSE [s1 EXCEPT !.calls[c].st = "parked", !.calls[c].which = "restore"]
+
+\* POST /runtime/restore/error (snapshot mode only): the sanitised error type cancels the init flow
+RtRestoreErrorEffect(s, c) ==
+    IF ~s.caching THEN Answer(s, c, Res(404, ""))
+    ELSE IF s.rt = "none" THEN Answer(s, c, Res(0, ""))
+    ELSE IF s.rt # "Restoring" THEN Forbidden(s, c)
+    ELSE Answer([CancelAllInit(s, "usererr") EXCEPT !.rt = "RestoreError", !.restoreErrType = s.calls[c].et], c,
+                [NoRes EXCEPT !.status = 202])
+
+\* GET /credentials (snapshot mode only): served only for the per-instance token
+CredsEffect(s, c) ==
+    IF s.caching /\ s.calls[c].idc = "ok" /\ s.credVal # "none"
+    THEN Answer(s, c, [NoRes EXCEPT !.status = 200, !.reason = s.credVal])
+    ELSE Answer(s, c, Res(404, ""))
+
 EffectEn(s, c) == c \in DOMAIN s.calls /\ s.calls[c].st = "issued"
 EffectDo(s, c) ==
     LET call == s.calls[c] IN
@@ -753,6 +820,9 @@ EffectDo(s, c) ==
       [] call.api = "next" -> AgNextEffect(s, c)
       [] call.api \in {"response", "error"} -> RtPostEffect(s, c)
       [] call.api = "initerror" -> RtInitErrorEffect(s, c)
+      [] call.api = "restorenext" -> RtRestoreNextEffect(s, c)
+      [] call.api = "restoreerror" -> RtRestoreErrorEffect(s, c)
+      [] call.api = "creds" -> CredsEffect(s, c)
       [] call.api = "register" -> RegisterEffect(s, c)
       [] call.api = "exterror" -> ExtErrorEffect(s, c)
       \* routing: unknown routes, wrong methods, snapshot routes outside snapshot mode (class in call.name)
@@ -770,6 +840,7 @@ WakeEn(s, c) ==
 WakeDo(s, c) ==
     IF s.calls[c].st = "zombie"
     THEN Answer(s, c, IF s.calls[c].who = "rt" THEN RenderRt(s) ELSE RenderAg(s))    \* acts on objects nobody refers to
+    ELSE IF s.calls[c].who = "rt" /\ s.calls[c].which = "restore" THEN RtRestoreAfterWake([s EXCEPT !.rtFlag = FALSE], c)
     ELSE IF s.calls[c].who = "rt" THEN RtAfterWake([s EXCEPT !.rtFlag = FALSE], c)
     ELSE AgAfterWake([s EXCEPT !.ag[s.calls[c].who].flag = FALSE], c, s.calls[c].who)
 
@@ -805,7 +876,7 @@ Urgent(s) ==
          \/ MainAfterResetEn(s, k) \/ MainAfterTimeoutEn(s, k)
     \/ \E x \in DOMAIN s.rs :
          \/ ResetCancelEn(s, x) \/ ResetLockEn(s, x) \/ ResetFinishEn(s, x) \/ ResetClearEn(s, x) \/ ResetServerClearEn(s, x)
-    \/ DriverShutdownLockEn(s) \/ DriverShutdownRetEn(s) \/ DriverResetRetEn(s)
+    \/ DriverShutdownLockEn(s) \/ DriverShutdownRetEn(s) \/ DriverResetRetEn(s) \/ RestoreAwaitEn(s)
     \/ ShutBeginEn(s) \/ ShutKillRuntimeNowEn(s) \/ ShutTermRuntimeEn(s) \/ ShutRuntimeExitedEn(s) \/ ShutAgentsEn(s)
     \/ (\E p \in s.pcS.todo : ShutAgentExitedEn(s, p) \/ (ShutAgentKillEn(s, p) /\ p \notin s.shutAwait))
     \/ ShutAgentsJoinedEn(s) \/ ShutReapedEn(s)
